@@ -67,6 +67,9 @@ type c13Req struct {
 	// state machines of the resilience policies (circuit breaker Open → HalfOpen after
 	// waitDurationInOpenState, rate limiter cycles).
 	Pause int `json:"pause,omitempty"`
+	// Deadline: the request context's deadline in milliseconds (default 25), so that a context can end
+	// DURING a retry back-off wait (retry waitDuration 5–10 ms, deadline 1–3 ms).
+	Deadline int `json:"deadline,omitempty"`
 }
 
 type c13Input struct {
@@ -269,7 +272,11 @@ func c13HandleWith(rq c13Req, run func(ctx *context.Context) string) string {
 	}
 	body := c13Body(rq.Body, rq.Gzip)
 	u := &url.URL{Scheme: "http", Host: "h.test", Path: path}
-	tctx, cancel := stdctx.WithTimeout(stdctx.Background(), 25*time.Millisecond)
+	dl := 25 * time.Millisecond
+	if rq.Deadline > 0 && rq.Deadline < 25 {
+		dl = time.Duration(rq.Deadline) * time.Millisecond
+	}
+	tctx, cancel := stdctx.WithTimeout(stdctx.Background(), dl)
 	defer cancel()
 	stdr := (&http.Request{Method: method, URL: u, Proto: "HTTP/1.1", ProtoMajor: 1, ProtoMinor: 1,
 		Header: http.Header{}, Host: "h.test", RemoteAddr: "127.0.0.1:5555", RequestURI: path}).WithContext(tctx)
@@ -1202,7 +1209,7 @@ func c13GenWalk(g *c13G) c13Input {
 	res := []interface{}{cb}
 	pool := c13M{"servers": []interface{}{c13M{"url": "http://127.0.0.1:1"}}, "circuitBreakerPolicy": "cb"}
 	if g.maybe(2) {
-		rt := c13M{"name": "r", "kind": "Retry", "maxAttempts": g.r.PickInt(1, 2, 3), "waitDuration": g.pick("1ms", "1ns", "2ms")}
+		rt := c13M{"name": "r", "kind": "Retry", "maxAttempts": g.r.PickInt(1, 2, 3), "waitDuration": g.pick("1ms", "1ns", "2ms", "5ms", "10ms")}
 		if g.maybe(2) {
 			rt["backOffPolicy"] = g.pick("random", "exponential")
 		}
@@ -1225,7 +1232,11 @@ func c13GenWalk(g *c13G) c13Input {
 	spec := c13M{"resilience": res, "filters": fs}
 	reqs := []c13Req{}
 	for k, n := 0, 4+g.r.Intn(5); k < n; k++ {
-		reqs = append(reqs, c13Req{Method: g.pick("GET", "POST"), Path: g.pick("/a", "/b"), Pause: g.r.PickInt(0, 0, 2, 3, 6)})
+		rq := c13Req{Method: g.pick("GET", "POST"), Path: g.pick("/a", "/b"), Pause: g.r.PickInt(0, 0, 2, 3, 6)}
+		if g.maybe(5) {
+			rq.Deadline = g.r.PickInt(1, 2, 3)
+		}
+		reqs = append(reqs, rq)
 	}
 	return c13Input{Spec: spec, Reqs: reqs}
 }
